@@ -59,6 +59,10 @@ def _scores(tier):
         return p
     out.append(("key_change_at_the_second_and_third_bar", lambda: with_keys(G.build_part("P1", 4, notes=[("n0", 0, 16, "C", None, 4, 1, 1), ("n1", 16, 16, "D", None, 4, 1, 1), ("n2", 32, 16, "E", None, 4, 1, 1)],
                                                                                           key=(0, "major"), measures=[(0, 16), (16, 32), (32, 48)]), (16, 3, "major"), (32, -2, "minor"))))
+    # an organ part: manuals on staves 1 and 2, the pedal on staff 3
+    out.append(("three_staves_pedal_on_the_third", lambda: G.build_part("P1", 4, notes=[("m0", 0, 8, "E", None, 5, 1, 1), ("m1", 8, 8, "D", None, 5, 1, 1), ("l0", 0, 16, "G", None, 3, 2, 2), ("p0", 0, 8, "C", None, 2, 3, 3),
+                                                                                        ("p1", 8, 8, "G", None, 2, 3, 3), ("m2", 16, 16, "D", None, 4, 1, 1), ("l1", 16, 16, "B", None, 3, 2, 2), ("p2", 16, 16, "G", None, 2, 3, 3)],
+                                                                        key=(0, "major"), measures=[(0, 16), (16, 32)])))
     out.append(("change_to_the_relative_minor_and_back", lambda: with_keys(G.build_part("P1", 4, notes=[("n0", 0, 16, "C", None, 4, 1, 1), ("n1", 16, 16, "A", None, 3, 1, 1), ("n2", 32, 16, "E", None, 4, 1, 1)],
                                                                                          key=(0, "major"), measures=[(0, 16), (16, 32), (32, 48)]), (16, 0, "minor"), (32, 0, "major"))))
     out.append(("beat_type_changes_six_eight_to_four_four", lambda: G.build_part("P1", 4, ts=((0, 6, 8), (24, 4, 4)), notes=[("n0", 0, 12, "C", None, 4, 1, 1), ("n0b", 12, 12, "C", None, 4, 1, 1), ("n1", 24, 16, "D", None, 4, 1, 1),
@@ -217,6 +221,14 @@ def _duplicates_and_fixtures(b):
         "both_kinds": ("snote(n1,[C,n],4,1:1,0,1/4,0.0000,1.0000,[v1,staff1])-note(p1,60,480,960,64,0,0).\nsnote(n1,[C,n],4,1:1,0,1/4,0.0000,1.0000,[v1,staff1])-deletion.\ninsertion-note(p1,60,480,960,64,0,0).\n"
                        "snote(n2,[D,n],4,1:2,0,1/4,1.0000,2.0000,[v1,staff1])-note(p2,62,960,1440,64,0,0).\n", {"deletion": 0, "insertion": 0, "match": 2}),
     }
+    # a line that occurs twice in the file, with other lines in between (a block pasted again at the end): one note line, not two, not none
+    n1 = "snote(n1,[C,n],4,1:1,0,1/4,0.0000,1.0000,[v1,staff1])-note(p1,60,480,960,64,0,0).\n"
+    n2 = "snote(n2,[D,n],4,1:2,0,1/4,1.0000,2.0000,[v1,staff1])-note(p2,62,960,1440,64,0,0).\n"
+    n3 = "snote(n3,[E,n],4,1:3,0,1/4,2.0000,3.0000,[v1,staff1])-deletion.\n"
+    ins = "insertion-note(p9,70,100,200,50,0,0).\n"
+    files["match_line_repeated_after_other_lines"] = (n1 + n2 + n3 + n1, {"match": 2, "deletion": 1, "insertion": 0})
+    files["insertion_line_repeated_after_other_lines"] = (ins + n1 + n2 + ins, {"match": 2, "insertion": 1})
+    files["deletion_line_repeated_after_other_lines"] = (n3 + n1 + n2 + n3, {"match": 2, "deletion": 1})
     for name, (body, want) in files.items():
         d = tempfile.mkdtemp(prefix="c08_")
         fn = os.path.join(d, "d.match")
